@@ -6,7 +6,7 @@
 //   HINT <qr_hints> <sig_hints> <rr_hints> <other_hints> <presence bits>
 // presence bits: the 39 members of GenericQueryResponse in declaration order, then ttl and rdata of query_answers[0],
 // then "a malformed message was read back", "an address event was read back".
-// Configurations: all bits set, none set, every single bit cleared, every single bit alone (per mask).
+// Configurations: all bits set, none set, every single bit cleared, every single bit alone (per mask), 120 pseudo-random ones.
 #include <cstdint>
 #include <cstdio>
 #include <sstream>
@@ -100,6 +100,14 @@ int main() {
         for (int j = 0; j < 17; j++) { probe(QR, SG & ~(1u << j), RR, OD); probe(QR, 1u << j, RR, OD); }
         for (int k = 0; k < 2; k++) { probe(QR, SG, RR & ~(1u << k), OD); probe(QR, SG, RR, OD & ~(1u << k)); }
         probe(QR, SG, 0, 0);
+        // 120 pseudo-random configurations (fixed linear congruential sequence): several bits cleared at once, in every mask
+        uint64_t x = 0x9E3779B97F4A7C15ull;
+        for (int i = 0; i < 120; i++) {
+            x = x * 6364136223846793005ull + 1442695040888963407ull; uint32_t a = (uint32_t)(x >> 33) & QR;
+            x = x * 6364136223846793005ull + 1442695040888963407ull; uint32_t b = (uint32_t)(x >> 33) & SG;
+            x = x * 6364136223846793005ull + 1442695040888963407ull; uint8_t c = (uint8_t)((x >> 40) & 3), d = (uint8_t)((x >> 50) & 3);
+            probe(a, b, c, d);
+        }
     } catch (std::exception& e) {
         std::printf("ERROR %s\n", e.what());
         return 1;
